@@ -31,14 +31,15 @@ def generate(repo):
     interp = read(repo, "tera/src/vm/interpreter.rs")
     limit = const_usize(interp, "MAX_COMPONENT_RECURSION_DEPTH")
     body = fn_body(interp, r"fn render_component\s*\(\s*&self\s*,\s*chunk\s*:\s*&Chunk\s*,\s*context\s*:\s*Context\s*\)[^{]*\{")
-    if not re.search(r"let\s+depth\s*=\s*self\.component_recursion_depth\s*\+\s*1\s*;\s*if\s+depth\s*>\s*MAX_COMPONENT_RECURSION_DEPTH\s*\{\s*return\s+Err\(", body):
+    g = re.search(r"let\s+(\w+)\s*=\s*self\.component_recursion_depth\s*\+\s*1\s*;\s*if\s+(\w+)\s*>\s*MAX_COMPONENT_RECURSION_DEPTH\s*\{\s*return\s+Err\(", body)
+    if not g or g.group(1) != g.group(2):
         raise ValueError("render_component: recursion guard not recognised")
-    if not re.search(r"component_recursion_depth\s*:\s*depth\s*,", body):
-        raise ValueError("render_component: the new VM does not take `component_recursion_depth: depth`")
+    if not re.search(rf"component_recursion_depth\s*:\s*{g.group(1)}\s*[,}}]", body):
+        raise ValueError("render_component: the new VM does not take the incremented depth")
     inc = fn_body(interp, r"fn render_include\s*\(")
-    if not re.search(r"component_recursion_depth\s*:\s*self\.component_recursion_depth\s*,", inc):
+    if not re.search(r"component_recursion_depth\s*:\s*self\.component_recursion_depth\s*[,}]", inc):
         raise ValueError("render_include: the depth counter is not carried into the include's VM")
-    if not re.search(r"autoescape_override\s*:\s*self\.autoescape_override\s*,", inc):
+    if not re.search(r"autoescape_override\s*:\s*self\.autoescape_override\s*[,}]", inc):
         raise ValueError("render_include: the autoescape override is not carried into the include's VM")
 
     ast = read(repo, "tera/src/parsing/ast.rs")
